@@ -156,6 +156,18 @@ impl Conv for Vec<i32> {
     }
 }
 
+impl Conv for Vec<f64> {
+    fn to_value(&self) -> Value {
+        Value::List(self.iter().map(|x| x.to_bits() as i64).collect())
+    }
+    fn from_value(v: &Value) -> Self {
+        match v {
+            Value::List(l) => l.iter().map(|x| f64::from_bits(*x as u64)).collect(),
+            _ => panic!("nvrt: bad value kind for Vec<f64>"),
+        }
+    }
+}
+
 /// A user-defined "other" inner type.
 #[derive(Debug, Clone, Copy, PartialEq, Eq, PartialOrd, Ord, Hash, Default)]
 #[derive(serde::Serialize, serde::Deserialize, arbitrary::Arbitrary)]
@@ -174,6 +186,14 @@ impl std::str::FromStr for Point {
         let s = s.strip_prefix('(').and_then(|s| s.strip_suffix(')')).ok_or("no parens")?;
         let (a, b) = s.split_once(';').ok_or("no semicolon")?;
         Ok(Point { x: a.parse().map_err(|_| "bad x")?, y: b.parse().map_err(|_| "bad y")? })
+    }
+}
+impl Point {
+    /// An inherent `from_str` that deliberately differs from the `FromStr` impl: generated code must go through the trait
+    /// (`str::parse`), not through whatever `Inner::from_str` happens to resolve to.
+    #[allow(clippy::should_implement_trait)]
+    pub fn from_str(_s: &str) -> Result<Point, String> {
+        Ok(Point { x: -1, y: -1 })
     }
 }
 impl Conv for Point {
